@@ -22,6 +22,7 @@ import ClarabelProofs.Lemmas.InfoConesAll
 import ClarabelProofs.Lemmas.InfoPresolveUser
 import ClarabelProofs.Props.C09
 import ClarabelProofs.Props.C01Full
+import ClarabelProofs.Props.C01NS
 
 namespace Clarabel.C01
 open Clarabel.Dense Clarabel.Info Finset
